@@ -153,8 +153,8 @@ def body(ctx):
     for k3, (size, tick, rt) in enumerate([(200000, 0.05, 1.0), (70000, 0.2, 0.5), (300000, 0.01, 0.3)]):
         for cb in (None, 'ok'):
             spec = dict(seed=ctx.seed + 700 + k3, maxdata=4096, rid='plus', frag='whole', tick=tick,
-                        ops=[dict(api='streaming_shell', decode=False, cmd='logcat', chunks=[b'l1;'.hex(), b'l2;'.hex(), b'l3;'.hex()], take=1, hold='log', read_timeout_s=rt),
-                             dict(api='pull', path='/slow', size=size, data_sizes=[4000] * 200, cuts='whole', dest='bytesio', cb=cb, read_timeout_s=rt),
+                        ops=[dict(api='streaming_shell', decode=False, cmd='logcat', chunks=[b'l1;'.hex(), b'l2;'.hex(), b'l3;'.hex()], take=1, hold='log', freeze=True, read_timeout_s=rt),
+                             dict(api='pull', path='/slow', size=size, data_sizes=[4000] * 200, cuts=[3000 * j_ for j_ in range(1, 40)], dest='bytesio', cb=cb, read_timeout_s=rt, thaw_after=(20, 4, 30)[k3]),
                              dict(api='resume', gen='log')])
             for mode in ('sync', 'async'):
                 runs.append((mode, spec) + run_with_inert(spec, mode))
